@@ -55,3 +55,10 @@ Theorem C04_struct_accessor_exact : forall ds f tid l p,
   sdepth_le ds f tid = true -> (In p (expand ds (S f) tid l) <-> carries ds tid l p).
 Proof. exact expand_exact. Qed.
 Print Assumptions C04_struct_accessor_exact.
+
+(* the specification is decidable: its executable form (evaluated against rustc's verdicts on every run) is equivalent to it *)
+From DV Require Import Lifetimes.SpecExec.
+Theorem C04_spec_executable : forall ds m f r x, (forall tid, udepth_le ds f tid = true) ->
+  (outlives_b (S f) ds m r x = true <-> outlives ds m r x).
+Proof. exact outlives_b_exact. Qed.
+Print Assumptions C04_spec_executable.
